@@ -8,10 +8,10 @@ def atom_txt(a):
     return '%s%s%s@%s' % ('' if pos else '-', name, '(%s)' % ','.join(args) if args else '', t)
 
 
-def answer_sets(ctx, inputs, H, hide=(), timeout=40, atoms=False, keep_aux=False):
+def answer_sets(ctx, inputs, H, hide=(), timeout=40, atoms=False, keep_aux=False, args=None):
     """inputs: list of lists of texts (several files per program).  Returns per input either
     {'ok': {h: sorted list of tuples of atom strings}} or {'error': {...}}."""
-    reqs = [{'cmd': 'solve', 'texts': t, 'imax': H + 1, 'istop': 'UNKNOWN', 'atoms': atoms} for t in inputs]
+    reqs = [dict({'cmd': 'solve', 'texts': t, 'imax': H + 1, 'istop': 'UNKNOWN', 'atoms': atoms}, **({'args': args} if args else {})) for t in inputs]
     out = []
     for ans in ctx.impl().run(reqs, timeout=timeout):
         if ans.get('status') != 'ok':
@@ -46,9 +46,9 @@ def first_diff(a, b):
 # Answer sets are invariant under an injective renaming of the atoms.  Renaming the propositional atoms of a generated program to atoms WITH
 # ARGUMENTS (negative numbers, strings with escape sequences, tuples, nested terms) sends every argument through the places of the code that
 # rebuild symbols from theory terms (formula atoms in bodies, heads and path expressions), with the unrenamed program as the reference.
-AMAP = {'a': 'pa(-1,(2,))', 'b': 'qb("x\\"y",f(-2))', 'c': 'rc((1,2),"")', 'd': 'sd("\\\\",-3)'}
+AMAP = {'a': 'pa(-1,(2,))', 'b': 'qb("x\\"y",f(-2),"")', 'c': 'rc((1,2),"")', 'd': 'sd("\\\\",-3)'}
 # the theory of &del atoms has no unary minus (gringo rejects `&del { p(-1) .>? q }` with "missing definition for operator"): no negative numbers there
-AMAP_DEL = {'a': 'pa(1,(2,))', 'b': 'qb("x\\"y",f(2))', 'c': 'rc((1,2),"")', 'd': 'sd("\\\\",3)'}
+AMAP_DEL = {'a': 'pa(1,(2,))', 'b': 'qb("x\\"y",f(2),"")', 'c': 'rc((1,2),"")', 'd': 'sd("\\\\",3)'}
 
 
 def rename(x, amap=AMAP):
